@@ -14,7 +14,12 @@ BASE_T = 1_600_000_000  # all static mtimes are BASE_T + k*10 s, whole milliseco
 # --------------------------------------------------------------------------
 
 
-def gen_dag(rng, n_targets=None, max_targets=8, p_noout=0.1, p_noin=0.15, max_outs=3, max_ins=4, n_sources=None, shapes=None, shuffle_names=True):
+# file names that are NOT in unicode normal form C: on Linux a name is a byte string, so these are distinct from
+# (and must never be confused with) their NFC spellings
+NON_NFC_PREFIX = ["re\u0301sume\u0301_", "\u212bngstrom_", "n\u0303_"]
+
+
+def gen_dag(rng, n_targets=None, max_targets=8, p_noout=0.1, p_noin=0.15, max_outs=3, max_ins=4, n_sources=None, shapes=None, shuffle_names=True, p_unicode=0.2):
     """abstract workflow: list of targets with project-relative file names.
     Acyclic by construction: target i may only consume files produced by j < i or sources."""
     n = n_targets or rng.randint(1, max_targets)
@@ -71,6 +76,14 @@ def gen_dag(rng, n_targets=None, max_targets=8, p_noout=0.1, p_noin=0.15, max_ou
             t["name"] = nm
         if rng.random() < 0.5:
             rng.shuffle(targets)
+    # a few files get names that are not NFC-normalised (decomposed accents, ANGSTROM SIGN)
+    if p_unicode and rng.random() < p_unicode:
+        files = list(sources) + [f for f, _ in produced]
+        ren = {f: rng.choice(NON_NFC_PREFIX) + f for f in rng.sample(files, min(len(files), rng.randint(1, 2)))}
+        sources = [ren.get(f, f) for f in sources]
+        for t in targets:
+            t["ins"] = [ren.get(f, f) for f in t["ins"]]
+            t["outs"] = [ren.get(f, f) for f in t["outs"]]
     return {"targets": targets, "sources": sources, "shape": shape}
 
 
